@@ -263,6 +263,24 @@ func (propC20) Gen(seed uint64, tier string, idx int) *Plan {
 		for _, c := range chunks {
 			doc = append(doc, c.Data...)
 		}
+		if stream && r.Chance(400) {
+			// richer real-world stream shapes: tool calls (all numbered 0 as some backends do), usage chunks, big arguments
+			cc := c13Gen(r)
+			doc, ct = []byte(c13SSE(r, cc)), "text/event-stream"
+		}
+		if typ == "ollama" && route == 2 && !stream {
+			// the provider's own final document, the one its profile extracts timing and token metrics from;
+			// half of the time with numbers no float64 holds (legal JSON all the same)
+			od := `{"model":"only-b1","created_at":"2026-01-01T00:00:00Z","response":"TEXT<p> alpha","done":true,"total_duration":5000000000,"load_duration":1000000,"prompt_eval_count":3,"prompt_eval_duration":2000000,"eval_count":5,"eval_duration":1000000}`
+			if r.Chance(500) {
+				big := pickS(r, []string{"1e999", "1e400", "-1e999", "9e307"})
+				od = strings.ReplaceAll(od, `"eval_count":5`, `"eval_count":`+big)
+				if r.Chance(700) {
+					od = strings.ReplaceAll(od, `"eval_duration":1000000`, `"eval_duration":`+pickS(r, []string{"1e999", big, "1e-400"}))
+				}
+			}
+			doc, ct = []byte(od), "application/json"
+		}
 		status := 200
 		if r.Chance(250) {
 			status = pickS(r, []int{400, 404, 500, 503})
